@@ -94,6 +94,8 @@ def d_follow_ok(u, nxt):
 
 def d_lines(u):
     k, x = u
+    if k == 'env':
+        return x.count(b'\n')      # newlines inside ${...} are consumed input and counted (C06)
     return 1 if (k == 'c' and x == 10) or k == 'cont' else 0
 
 
@@ -134,7 +136,6 @@ def mk_dq(units):
         nxt = (b''.join(body[i + 1:]) + b'"')[0]
         ok = ok and d_follow_ok(u, nxt)
     val = b''.join(d_denote(u) for u in units) if ok else None
-    # the scanner does not count a newline inside ${...}
     return text, val, sum(d_lines(u) for u in units)
 
 
